@@ -63,6 +63,22 @@ func runC06(c *fw.Case) {
 		c.HarnessError("%v", err)
 		return
 	}
+	// fault: the file was modified after the index was made (same length): chop must then fail, or whatever it stored
+	// is valid anyway (chunks the target already had are not read)
+	stale := 0
+	if op == 0 && len(blob) > 0 && c.Chance(1, 6, "c06.stale") {
+		mod := append([]byte(nil), blob...)
+		for i := 0; i < c.Range(1, 3, "stale.edits"); i++ {
+			p := c.Draw(len(mod), "stale.pos")
+			mod[p] ^= byte(1 + c.Draw(255, "stale.xor"))
+		}
+		if err := os.WriteFile(file, mod, 0644); err != nil {
+			c.HarnessError("%v", err)
+			return
+		}
+		stale = 1
+		c.Fault("file-changed-since-index")
+	}
 	dst := newSimStore(c, "dst")
 	src := newSimStore(c, "src")
 	src.fill(blob, idx.Chunks)
@@ -149,6 +165,15 @@ func runC06(c *fw.Case) {
 		return
 	}
 	delivered := dst.delivered + src.delivered
+	if err == nil && stale > 0 && delivered == 0 {
+		if why := storeHasAll(dst, blob, idx.Chunks); why != "" {
+			c.Violate("store-incomplete", names[op]+"/stale-index", "the file no longer matches the index, ChopFile reported success, but %s", why)
+			return
+		}
+		c.Outcome("ok")
+		return
+	}
+	delivered += stale
 	if err == nil {
 		if delivered > 0 {
 			c.Violate("failure-masked", names[op], "%d injected store failure(s) were returned to desync, yet %s reported success (faults dst=%v src=%v)", delivered, names[op], dst.faults, src.faults)
